@@ -29,6 +29,9 @@ partial def parseValue (cs : List Char) : Option (Value × List Char) :=
   | 'F' :: r => some (.bool false, r)
   | 'i' :: r => let (n, r') := takeNum r; n.toInt?.map (fun i => (.int i, r'))
   | 'u' :: r => let (n, r') := takeNum r; n.toNat?.map (fun i => (.uint i, r'))
+  | 'f' :: 'N' :: 'a' :: 'N' :: r => some (.fspec 0, r)
+  | 'f' :: '+' :: 'I' :: 'n' :: 'f' :: r => some (.fspec 1, r)
+  | 'f' :: '-' :: 'I' :: 'n' :: 'f' :: r => some (.fspec 2, r)
   | 'f' :: r => let (n, r') := takeNum r; n.toInt?.map (fun i => (.flt i, r'))
   | 't' :: r => let (n, r') := takeNum r; n.toInt?.map (fun i => (.time i, r'))
   | '\'' :: r =>
